@@ -55,3 +55,7 @@ Proof. vm_compute. repeat split. Qed.
 Theorem C13_source_get_genus : forall s (vs : list Z), length vs = gn s -> Translated.CFGraph_get_genus (tot s) vs = g_genus s.
 Proof. exact get_genus_eq. Qed.
 Print Assumptions C13_source_get_genus.
+(* the loop test of add_edge, as translated from the current source: names are compared as strings *)
+Theorem C13_source_is_loopless : forall a b, Translated.CFGraph_is_loopless a b = true <-> a <> b.
+Proof. exact is_loopless_spec. Qed.
+Print Assumptions C13_source_is_loopless.
